@@ -39,15 +39,15 @@ theorem requirements_literal (pom : Pom) (h : ∀ d ∈ pom.deps, literal d.ver)
   simp only [resolvable_literal _ _ _ hl, interpolate_literal _ _ hl, if_true, reqOf]
   split <;> rfl
 
-structure LiteralCase (pom : Pom) (u : Upd) (d : Dep) : Prop where
+/-- The literal fragment, any number of updates: every version in the file is a literal, dependency keys are
+unique over the whole file, the updates address pairwise different keys, and each update has a well-formed name,
+addresses an existing entry by key, origin and old version, and carries a literal new version. -/
+structure LiteralCases (pom : Pom) (us : List Upd) : Prop where
   lit : ∀ x ∈ pom.deps, literal x.ver
   keys : (pom.deps.map (·.key)).Nodup
-  mem : d ∈ pom.deps
-  key : d.key = u.key
-  origin : u.origin = attrOrigin d.origin
-  frm : u.frm = d.ver
-  nonempty : d.ver ≠ []
-  toLit : literal u.to
+  ukeys : (us.map (·.key)).Nodup
+  each : ∀ u ∈ us, u.ga.isSome = true ∧ literal u.to ∧
+    ∃ d ∈ pom.deps, d.key = u.key ∧ u.origin = attrOrigin d.origin ∧ u.frm = d.ver ∧ d.ver ≠ []
 
 theorem key_unique (l : List Dep) (hn : (l.map (·.key)).Nodup) (d x : Dep) (hd : d ∈ l) (hx : x ∈ l)
     (hk : x.key = d.key) : x = d := by
@@ -62,78 +62,287 @@ theorem key_unique (l : List Dep) (hn : (l.map (·.key)).Nodup) (d x : Dep) (hd 
     · exfalso; apply hn.1; rw [hk]; exact List.mem_map_of_mem hd
     · exact ih hn.2 hd hx
 
-theorem find_original (pom : Pom) (u : Upd) (d : Dep) (c : LiteralCase pom u d) :
-    originalDependency u pom.deps = some d := by
+theorem upd_key_unique (us : List Upd) (hnd : (us.map (·.key)).Nodup) (u w : Upd) (hu : u ∈ us) (hw : w ∈ us)
+    (hk : w.key = u.key) : w = u := by
+  induction us with
+  | nil => cases hu
+  | cons y ys ih =>
+    simp only [List.map, List.nodup_cons] at hnd
+    simp at hu hw
+    rcases hu with rfl | hu <;> rcases hw with rfl | hw
+    · rfl
+    · exfalso; apply hnd.1; rw [← hk]; exact List.mem_map_of_mem hw
+    · exfalso; apply hnd.1; rw [hk]; exact List.mem_map_of_mem hu
+    · exact ih hnd.2 hu hw
+
+theorem find_original (pom : Pom) (u : Upd) (d : Dep) (hga : u.ga.isSome = true) (hkeys : (pom.deps.map (·.key)).Nodup)
+    (hmem : d ∈ pom.deps) (hk : d.key = u.key) (hne : d.ver ≠ []) : originalDependency u pom.deps = some d := by
   unfold originalDependency
-  have hmem := c.mem
-  have hkeys := c.keys
+  have : u.ga.isNone = false := by cases h : u.ga <;> simp_all
+  simp only [this, Bool.false_eq_true, if_false]
   generalize pom.deps = l at hmem hkeys
   induction l with
   | nil => cases hmem
   | cons y ys ih =>
     simp only [List.find?]
     by_cases hy : y.key = u.key
-    · have : y = d := key_unique (y :: ys) hkeys d y hmem (by simp) (by rw [hy, c.key])
+    · have : y = d := key_unique (y :: ys) hkeys d y hmem (by simp) (by rw [hy, hk])
       subst this
-      simp [hy, c.nonempty]
+      simp [hy, hne]
     · simp only [hy, decide_false, Bool.false_and]
       simp only [List.map, List.nodup_cons] at hkeys
       simp at hmem
       rcases hmem with rfl | hmem
-      · exact absurd c.key hy
+      · exact absurd hk hy
       · exact ih hmem hkeys.2
 
-theorem buildPatches_literal (pom : Pom) (u : Upd) (d : Dep) (c : LiteralCase pom u d) :
-    buildPatches pom [u] = ⟨[⟨d.origin, d.key, u.to, true⟩], []⟩ := by
-  simp only [buildPatches, List.foldl, buildPatch1, find_original pom u d c,
-    containsProperty_literal _ (c.lit d c.mem)]
-  simp [addPatch]
+/-- the patch an update of the fragment turns into -/
+def directOf (pom : Pom) (u : Upd) : DPatch :=
+  match originalDependency u pom.deps with
+  | some d => ⟨d.origin, d.key, u.to, true⟩
+  | none => ⟨sManagement, u.key, u.to, false⟩
 
-theorem C13_pom_literal_roundtrip_aux (pom : Pom) (u : Upd) (d : Dep) (c : LiteralCase pom u d) :
-    requirements (write pom [u]) = substitute (requirements pom) [u] := by
-  have hw : write pom [u] = { pom with deps := pom.deps.map fun x => if x = d then { x with ver := u.to } else x } := by
-    unfold write
-    rw [buildPatches_literal pom u d c]
-    simp only [newDeps, List.filter, Bool.not_true, List.map_nil, List.append_nil]
-    congr 1
-    · apply List.map_congr_left
-      intro x hx
-      unfold applyDep
-      simp only [List.reverse_cons, List.reverse_nil, List.nil_append, List.find?]
-      by_cases hxd : x = d
-      · subst hxd; simp
-      · have : ¬ (d.origin = x.origin ∧ d.key = x.key) := by
-          intro h; exact hxd (key_unique pom.deps c.keys d x c.mem hx h.2.symm)
-        simp [this, hxd]
-    · have : pom.props.map (applyProp ⟨[⟨d.origin, d.key, u.to, true⟩], []⟩) = pom.props.map id := by
-        apply List.map_congr_left; intro p _; simp [applyProp, propPatchLookup]
-      simpa using this
-  have hlit' : ∀ x ∈ (write pom [u]).deps, literal x.ver := by
-    rw [hw]; intro x hx
+theorem buildPatch1_literal (pom : Pom) (ps : Patches) (u : Upd) (hlit : ∀ x ∈ pom.deps, literal x.ver)
+    (hkeys : (pom.deps.map (·.key)).Nodup) (hga : u.ga.isSome = true)
+    (hd : ∃ d ∈ pom.deps, d.key = u.key ∧ d.ver ≠ []) (hfresh : ∀ q ∈ ps.deps, q.key ≠ u.key) :
+    buildPatch1 pom ps u = some ⟨ps.deps ++ [directOf pom u], ps.props⟩ := by
+  obtain ⟨d, hm, hk, hne⟩ := hd
+  have ho := find_original pom u d hga hkeys hm hk hne
+  unfold buildPatch1 directOf
+  have : u.ga.isNone = false := by cases h : u.ga <;> simp_all
+  simp only [this, Bool.false_eq_true, if_false, ho, containsProperty_literal _ (hlit d hm), Bool.not_false, if_true]
+  have hany : ps.deps.any (fun q => q.origin = d.origin ∧ q.key = d.key ∧ q.newReq = u.to) = false := by
+    rw [List.any_eq_false]
+    intro q hq
+    have := hfresh q hq
+    simp [hk, this]
+  unfold addPatch
+  rw [hany]
+  simp
+
+theorem find_congr' {α : Type} (p q : α → Bool) (l : List α) (h : ∀ x ∈ l, p x = q x) : l.find? p = l.find? q := by
+  induction l with
+  | nil => rfl
+  | cons x xs ih =>
+    simp only [List.find?, h x (by simp)]
+    rw [ih (fun y hy => h y (by simp [hy]))]
+
+theorem buildFrom_literal (pom : Pom) (hlit : ∀ x ∈ pom.deps, literal x.ver) (hkeys : (pom.deps.map (·.key)).Nodup)
+    (us : List Upd) (ps : Patches) (hu : (us.map (·.key)).Nodup)
+    (each : ∀ u ∈ us, u.ga.isSome = true ∧ ∃ d ∈ pom.deps, d.key = u.key ∧ d.ver ≠ [])
+    (hfresh : ∀ q ∈ ps.deps, ∀ u ∈ us, q.key ≠ u.key) :
+    buildFrom pom ps us = some ⟨ps.deps ++ us.map (directOf pom), ps.props⟩ := by
+  induction us generalizing ps with
+  | nil => simp [buildFrom]
+  | cons u us ih =>
+    simp only [List.map, List.nodup_cons] at hu
+    have e := each u (by simp)
+    rw [buildFrom, buildPatch1_literal pom ps u hlit hkeys e.1 e.2 (fun q hq => hfresh q hq u (by simp))]
+    simp only
+    rw [ih ⟨ps.deps ++ [directOf pom u], ps.props⟩ hu.2 (fun x hx => each x (by simp [hx]))]
+    · simp
+    · intro q hq x hx
+      simp only [List.mem_append, List.mem_singleton] at hq
+      rcases hq with hq | rfl
+      · exact hfresh q hq x (by simp [hx])
+      · -- the patch just added carries u's key
+        obtain ⟨d, hm, hk, hne⟩ := e.2
+        have ho := find_original pom u d e.1 hkeys hm hk hne
+        simp only [directOf, ho]
+        rw [hk]
+        intro h
+        apply hu.1
+        rw [h]; exact List.mem_map_of_mem hx
+
+theorem find_rev_unique {α : Type} (p : α → Bool) (l : List α) (hu : ∀ a ∈ l, ∀ b ∈ l, p a = true → p b = true → a = b) :
+    l.reverse.find? p = l.find? p := by
+  cases hf : l.find? p with
+  | none =>
+    rw [List.find?_eq_none] at hf ⊢
+    intro x hx; exact hf x (List.mem_reverse.mp hx)
+  | some a =>
+    have ha := List.mem_of_find?_eq_some hf
+    have hpa := List.find?_some hf
+    cases hr : l.reverse.find? p with
+    | none =>
+      rw [List.find?_eq_none] at hr
+      exact absurd hpa (hr a (List.mem_reverse.mpr ha))
+    | some b =>
+      have hb := List.mem_reverse.mp (List.mem_of_find?_eq_some hr)
+      have hpb := List.find?_some hr
+      rw [hu a ha b hb hpa hpb]
+
+/-- what `write` does to one entry in the fragment: the version of the update with its key, if any -/
+def updated (us : List Upd) (x : Dep) : Dep :=
+  match us.find? (fun u => u.key = x.key) with
+  | some u => { x with ver := u.to }
+  | none => x
+
+theorem applyDep_literal (pom : Pom) (us : List Upd) (c : LiteralCases pom us) (x : Dep) (hx : x ∈ pom.deps) :
+    applyDep ⟨us.map (directOf pom), []⟩ x = updated us x := by
+  unfold applyDep updated
+  simp only
+  -- every patch of the list is ⟨(its dependency).origin, u.key, u.to, true⟩
+  have hdir : ∀ u ∈ us, ∃ d ∈ pom.deps, d.key = u.key ∧ directOf pom u = ⟨d.origin, u.key, u.to, true⟩ := by
+    intro u hu
+    obtain ⟨hga, _, d, hm, hk, _, _, hne⟩ := c.each u hu
+    refine ⟨d, hm, hk, ?_⟩
+    simp only [directOf, find_original pom u d hga c.keys hm hk hne, hk]
+  have hrev : (us.map (directOf pom)).reverse.find? (fun p => decide (p.origin = x.origin ∧ p.key = x.key)) =
+      (us.map (directOf pom)).find? (fun p => decide (p.origin = x.origin ∧ p.key = x.key)) := by
+    apply find_rev_unique
+    intro a ha b hb h1 h2
+    simp only [List.mem_map] at ha hb
+    obtain ⟨u, hu, rfl⟩ := ha
+    obtain ⟨w, hw, rfl⟩ := hb
+    obtain ⟨d1, _, _, e1⟩ := hdir u hu
+    obtain ⟨d2, _, _, e2⟩ := hdir w hw
+    rw [e1] at h1; rw [e2] at h2
+    simp only [decide_eq_true_eq] at h1 h2
+    have huw : u.key = w.key := by rw [h1.2, h2.2]
+    have : u = w := by
+      have hnd := c.ukeys
+      clear hdir e1 e2 h1 h2
+      induction us with
+      | nil => cases hu
+      | cons y ys ih =>
+        simp only [List.map, List.nodup_cons] at hnd
+        simp at hu hw
+        rcases hu with rfl | hu <;> rcases hw with rfl | hw
+        · rfl
+        · exfalso; apply hnd.1; rw [huw]; exact List.mem_map_of_mem hw
+        · exfalso; apply hnd.1; rw [← huw]; exact List.mem_map_of_mem hu
+        · exact ih (by constructor <;> first | exact fun x hx => c.lit x hx | exact c.keys | exact hnd.2 | exact fun u hu => c.each u (by simp [hu])) hu hw hnd.2
+    rw [this]
+  rw [hrev, List.find?_map]
+  have hcongr : us.find? ((fun p => decide (p.origin = x.origin ∧ p.key = x.key)) ∘ directOf pom) = us.find? (fun u => u.key = x.key) := by
+    apply find_congr'
+    intro u hu
+    obtain ⟨d, hm, hk, e⟩ := hdir u hu
+    simp only [Function.comp, e]
+    by_cases hkx : u.key = x.key
+    · have : d = x := (key_unique pom.deps c.keys x d hx hm (by rw [hk, hkx])).symm ▸ rfl
+      have hdx : d = x := key_unique pom.deps c.keys x d hx hm (by rw [hk, hkx])
+      simp [hkx, hdx]
+    · simp [hkx]
+  rw [hcongr]
+  cases hf : us.find? (fun u => u.key = x.key) with
+  | none => simp
+  | some u =>
+    have hu := List.mem_of_find?_eq_some hf
+    obtain ⟨d, _, _, e⟩ := hdir u hu
+    simp [e]
+
+
+theorem foldl_map_fusion {α β : Type} (f : β → α → α) (us : List β) (rs : List α) :
+    us.foldl (fun rs u => rs.map (f u)) rs = rs.map (fun r => us.foldl (fun r u => f u r) r) := by
+  induction us generalizing rs with
+  | nil => simp
+  | cons u us ih =>
+    simp only [List.foldl]
+    rw [ih, List.map_map]
+    rfl
+
+theorem foldl_substReq_other (us : List Upd) (r : Req) (h : ∀ u ∈ us, u.key ≠ r.key) :
+    us.foldl (fun r u => substReq u r) r = r := by
+  induction us with
+  | nil => rfl
+  | cons u us ih =>
+    simp only [List.foldl]
+    have : substReq u r = r := by
+      unfold substReq addresses
+      have := h u (by simp)
+      simp [Ne.symm this]
+    rw [this]
+    exact ih (fun x hx => h x (by simp [hx]))
+
+theorem substitute_literal (pom : Pom) (us : List Upd) (hu : (us.map (·.key)).Nodup) (hk : (pom.deps.map (·.key)).Nodup)
+    (hfit : ∀ u ∈ us, ∀ d ∈ pom.deps, d.key = u.key → u.origin = attrOrigin d.origin ∧ u.frm = d.ver)
+    (x : Dep) (hx : x ∈ pom.deps) :
+    us.foldl (fun r u => substReq u r) (reqOf x) = reqOf (updated us x) := by
+  induction us with
+  | nil => rfl
+  | cons u us ih =>
+    simp only [List.map, List.nodup_cons] at hu
+    simp only [List.foldl]
+    by_cases hkx : u.key = x.key
+    · have hf := hfit u (by simp) x hx hkx.symm
+      have ha : addresses u (reqOf x) = true := by
+        unfold addresses reqOf; simp [hkx, hf.1, hf.2]
+      have h1 : substReq u (reqOf x) = reqOf { x with ver := u.to } := by
+        unfold substReq; rw [if_pos ha]; rfl
+      rw [h1, foldl_substReq_other]
+      · unfold updated; simp [List.find?, hkx]
+      · intro w hw hwk
+        apply hu.1
+        have : w.key = u.key := by rw [hwk]; simp [reqOf, Dep.key, hkx]
+        rw [← this]; exact List.mem_map_of_mem hw
+    · have hna : substReq u (reqOf x) = reqOf x := by
+        unfold substReq addresses reqOf
+        simp [Ne.symm hkx]
+      rw [hna, ih hu.2 (fun w hw => hfit w (by simp [hw]))]
+      unfold updated
+      simp [List.find?, hkx]
+
+theorem write_literal (pom : Pom) (us : List Upd) (c : LiteralCases pom us) :
+    write pom us = some { pom with deps := pom.deps.map (updated us) } := by
+  have hb : buildPatches pom us = some ⟨us.map (directOf pom), []⟩ := by
+    unfold buildPatches
+    rw [buildFrom_literal pom c.lit c.keys us ⟨[], []⟩ c.ukeys
+      (fun u hu => by obtain ⟨a, _, d, hm, hk, _, _, hne⟩ := c.each u hu; exact ⟨a, d, hm, hk, hne⟩)
+      (by intro q hq; cases hq)]
+    simp
+  unfold write
+  rw [hb]
+  simp only [Option.map, applyPatches]
+  congr 1
+  have hnew : newDeps ⟨us.map (directOf pom), []⟩ = [] := by
+    unfold newDeps
+    simp only [List.map_eq_nil_iff, List.filter_eq_nil_iff, List.mem_map]
+    rintro p ⟨u, hu, rfl⟩
+    obtain ⟨hga, _, d, hm, hk, _, _, hne⟩ := c.each u hu
+    simp [directOf, find_original pom u d hga c.keys hm hk hne]
+  have hdeps : pom.deps.map (applyDep ⟨us.map (directOf pom), []⟩) = pom.deps.map (updated us) := by
+    apply List.map_congr_left
+    intro x hx
+    exact applyDep_literal pom us c x hx
+  have hprops : pom.props.map (applyProp ⟨us.map (directOf pom), []⟩) = pom.props := by
+    have : pom.props.map (applyProp ⟨us.map (directOf pom), []⟩) = pom.props.map id := by
+      apply List.map_congr_left; intro p _; simp [applyProp, propPatchLookup]
+    simpa using this
+  rw [hnew, hdeps, hprops]
+  simp
+
+theorem updated_literal (pom : Pom) (us : List Upd) (c : LiteralCases pom us) (x : Dep) (hx : x ∈ pom.deps) :
+    literal (updated us x).ver := by
+  unfold updated
+  cases hf : us.find? (fun u => u.key = x.key) with
+  | none => exact c.lit x hx
+  | some u => exact (c.each u (List.mem_of_find?_eq_some hf)).2.1
+
+theorem roundtrip_literal (pom pom' : Pom) (us : List Upd) (c : LiteralCases pom us) (h : write pom us = some pom') :
+    requirements pom' = substitute (requirements pom) us ∧ pom'.deps = pom.deps.map (updated us) ∧ pom'.props = pom.props := by
+  rw [write_literal pom us c] at h
+  injection h with h
+  subst h
+  refine ⟨?_, rfl, rfl⟩
+  have hlit' : ∀ x ∈ ({ pom with deps := pom.deps.map (updated us) } : Pom).deps, literal x.ver := by
+    intro x hx
     simp only [List.mem_map] at hx
     obtain ⟨y, hy, rfl⟩ := hx
-    split
-    · exact c.toLit
-    · exact c.lit y hy
-  rw [requirements_literal pom c.lit, requirements_literal _ hlit', hw]
-  simp only [substitute, List.foldl, List.map_map]
+    exact updated_literal pom us c y hy
+  rw [requirements_literal pom c.lit, requirements_literal _ hlit']
+  unfold substitute
+  rw [foldl_map_fusion (fun u r => substReq u r), List.map_map, List.map_map]
   apply List.map_congr_left
   intro x hx
   simp only [Function.comp]
-  by_cases hxd : x = d
-  · subst hxd
-    simp only [if_true]
-    have ha : addresses u (reqOf x) = true := by
-      unfold addresses reqOf
-      simp [c.key, c.origin, c.frm]
-    have ha' : addresses u ⟨attrOrigin x.origin, (x.g, x.a, normTyp x.typ, x.cls), x.ver⟩ = true := ha
-    simp [substReq, reqOf, Dep.key, ha']
-  · simp only [hxd, if_false]
-    have hna : addresses u (reqOf x) = false := by
-      unfold addresses reqOf
-      have : x.key ≠ u.key := by
-        intro h; exact hxd (key_unique pom.deps c.keys d x c.mem hx (by rw [h, c.key]))
-      simp [this]
-    simp [substReq, hna]
+  symm
+  apply substitute_literal pom us c.ukeys c.keys _ x hx
+  intro u hu d hd hk
+  obtain ⟨_, _, d', hm', hk', ho, hf, _⟩ := c.each u hu
+  have : d = d' := key_unique pom.deps c.keys d' d hm' hd (by rw [hk, hk'])
+  subst this
+  exact ⟨ho, hf⟩
 
 end Scalibr.Pom
